@@ -9,8 +9,13 @@ for p in props:
     pid = p["id"]
     try:
         m = importlib.import_module("props." + pid)
-    except ModuleNotFoundError:
+    except Exception as e:
+        if not isinstance(e, ModuleNotFoundError):
+            print("mkmanifest: %s does not import (%s) -> not claimed" % (pid, e))
         na.append(dict(property_id=pid, reason="check not built yet (planned in DESIGN.md section 5, %s); not claimed until its theorems and correspondence exist" % pid))
+        continue
+    if not all(hasattr(m, k) for k in ("LEVEL_TEXT", "LEVEL_NOTE", "TECHNIQUE", "check")):
+        na.append(dict(property_id=pid, reason="check under construction; not claimed until its theorems and correspondence exist"))
         continue
     if getattr(m, "NOT_APPLICABLE", None):
         na.append(dict(property_id=pid, reason=m.NOT_APPLICABLE))
